@@ -130,6 +130,187 @@ def core_program(rng, size=None, feats=None):
     return "".join(out)
 
 
+# ---- controllers, bends, RPN/NRPN (pipeline model, step 1) and later extensions --------------------------------
+CC_NAMES = ["M", "Modulation", "PT", "PortamentoTime", "V", "MainVolume", "P", "Panpot", "EP", "Expression", "PS",
+            "PortamentoSwitch", "REV", "Reverb", "CHO", "Chorus", "VAR", "Variation"]
+RPN_NAMES = ["PitchBendSensitivity", "BEND_RANGE", "BendRange", "BR", "FineTune", "CoarseTune", "VibratoRate", "VibratoDepth",
+             "VibratoDelay", "FilterCutoff", "FilterResonance", "EGAttack", "EGDecay", "EGRelease"]
+CC_VALUES = ["0", "1", "63", "64", "100", "127", "128", "200", "-1", "-5", "$7F", "$40", "0x10", "!4", "!8.", "8191", "16383"]
+BEND_VALUES = ["0", "64", "127", "1", "63", "65", "-1", "128", "8191", "-8192", "8192", "100", "-100", "$40", "16383", "-20000"]
+
+
+def cc_value(rng):
+    return rng.choice(CC_VALUES)
+
+
+def ctrl_cmd(rng):
+    """one controller / bend / RPN command, mostly well-formed, with the spellings the readers accept"""
+    k = rng.random()
+    sp = rng.choice(["", "", "", " "])
+    if k < 0.22:
+        no = rng.choice(["1", "7", "10", "11", "64", "91", "0", "127", "128", "$5B", ""])
+        v = cc_value(rng)
+        return "y" + sp + no + rng.choice([",", ",", ", ", " ,", " , "]) + v + rng.choice([" ", ";", "", "\n"])
+    if k < 0.34:
+        name = rng.choice(["CC", "ControlChange", "CONTROL_CHANGE", "PlayFrom.CtrlChg"])
+        no = rng.choice(["1", "7", "10", "11", "64", "91", "0", "127", "200"])
+        return name + rng.choice(["(%s,%s)", "(%s, %s)", "( %s ,%s )", "(%s,%s", "%s,%s", "(%s %s)", "(%s,%.0s)"]) % (no, cc_value(rng))
+    if k < 0.62:
+        name = rng.choice(CC_NAMES)
+        v = cc_value(rng)
+        return name + rng.choice(["(%s)", "(%s)", "=%s;", "%s ", " (%s)", "( %s )", "(%s", "(%s)", "(%s)", "(%s,1)", "(){0}", "=(%s)"]).replace("{0}", "%.0s") % v
+    if k < 0.74:
+        v = rng.choice(BEND_VALUES)
+        return "p" + rng.choice(["(%s)", "%s ", "=%s;", " %s ", "( %s )", "(%s"]) % v
+    if k < 0.84:
+        v = rng.choice(BEND_VALUES)
+        return rng.choice(["PB", "PitchBend"]) + rng.choice(["(%s)", "=%s;", "%s ", " (%s)", "(%s"]) % v
+    if k < 0.93:
+        return rng.choice(RPN_NAMES) + rng.choice(["(%s)", "(%s)", " (%s)", "=%s ", "(%s", "(%s)", "(%s)", "(%s,2)", "()%.0s"]) % cc_value(rng)
+    if k < 0.97:
+        n = rng.choice([3, 3, 3, 2, 4, 1])
+        return rng.choice(["RPN", "NRPN"]) + rng.choice(["(%s)", "=%s;", " (%s)"]) % ",".join(cc_value(rng) for _ in range(n))
+    return rng.choice(["Voice", "VOICE"]) + rng.choice(["(%s)", "=%s;"]) % ",".join(rng.choice(["1", "5", "128", "0", "40"]) for _ in range(rng.choice([1, 1, 2, 3])))
+
+
+RES_INTS = ["0", "1", "64", "100", "127", "40", "90", "-1", "-3", "2", "5", "200", "!4", "!8", "!16", "!1", "!2", "48", "24", "96", "$7F", "8191", "-8192"]
+
+
+def int_array(rng, n=None, kind="any"):
+    n = n if n is not None else rng.choice([1, 2, 3, 3, 3, 4, 6, 6, 0])
+    pools = {"vel": ["100", "127", "64", "1", "0", "80", "40", "200", "-1"], "oct": ["4", "5", "6", "3", "7", "0", "10", "11", "-1"],
+             "len": ["!4", "!8", "!16", "48", "24", "96", "!2", "0", "1", "!4."], "tim": ["0", "1", "-1", "3", "-3", "10"],
+             "gate": ["100", "50", "90", "10", "1", "120", "0"]}
+    if kind == "ramp":
+        vals = []
+        for _ in range(rng.choice([1, 1, 2, 3])):
+            vals += [rng.choice(["0", "127", "64", "40", "100", "-10", "200", "8191", "-8192"]), rng.choice(["0", "127", "64", "40", "100", "8191", "-100"]),
+                     rng.choice(["!4", "!2", "!1", "!8", "96", "48", "10", "1", "0", "-5", "!1^2", "7"])]
+        if rng.random() < 0.15:
+            vals = vals[:-rng.choice([1, 2])]
+    else:
+        vals = [rng.choice(pools.get(kind, RES_INTS)) for _ in range(n)]
+    sep = rng.choice([",", ",", ", ", " ,"])
+    return sep.join(vals)
+
+
+def arr_form(rng, body):
+    return rng.choice(["(%s)", "(%s)", "(%s)", "=%s;", "( %s )", "(%s", " (%s)", "=%s "]) % body
+
+
+def res_cmd(rng):
+    """one reservation command (pipeline model, step 2)"""
+    k = rng.random()
+    if k < 0.30:
+        x, kind = rng.choice([("v", "vel"), ("q", "gate"), ("t", "tim"), ("o", "oct"), ("l", "len")])
+        w = rng.choice(["onNote", "onNote", "N", "onCycle", "onCycle", "C"])
+        return x + "." + w + arr_form(rng, int_array(rng, kind=kind))
+    if k < 0.40:
+        return "v." + rng.choice(["onTime", "onTime", "T"]) + arr_form(rng, int_array(rng, kind="ramp"))
+    if k < 0.52:
+        x = rng.choice(["v", "q", "t", "o", "v", "l"])
+        return x + ".Random" + rng.choice(["(%s)", "=%s;", "=%s ", "(%s", " (%s)"]) % rng.choice(["0", "1", "2", "3", "5", "10", "20", "64", "-4", "200"])
+    if k < 0.72:
+        head = rng.choice(["y7", "y1", "y11", "y10", "y91", "M", "V", "EP", "P", "REV", "Modulation", "Expression", "CC(7)", "y 64"])
+        w = rng.choice(["onTime", "onTime", "T", "onNote", "N", "onNoteWave", "W", "onNoteWave"])
+        kind = "ramp" if w in ("onTime", "T", "onNoteWave", "W") else "vel"
+        return head + "." + w + arr_form(rng, int_array(rng, kind=kind))
+    if k < 0.78:
+        head = rng.choice(["M", "V", "EP", "y7", "P"])
+        return head + ".Frequency" + rng.choice(["(%s)", "=%s;", "(%s"]) % rng.choice(["1", "2", "4", "8", "0", "-1", "24", "96"])
+    if k < 0.86:
+        head = rng.choice(["PB", "PitchBend", "p", "p"])
+        return head + rng.choice([".onTime", ".T"]) + arr_form(rng, int_array(rng, kind="ramp"))
+    if k < 0.90:
+        head = rng.choice(["M", "V", "EP", "y7"])
+        return head + "." + rng.choice(["onCycle", "C", "Sine", "onNoteSine", "onNoteWaveEx", "WE", "Foo", "x"]) + arr_form(rng, int_array(rng))
+    if k < 0.95:
+        return rng.choice(["Fadein", "Fadeout"]) + rng.choice(["(%s)", "=%s;", "(%s"]) % rng.choice(["1", "2", "0", "-1", "4"])
+    return rng.choice(["Cresc", "Decresc", "CRESC", "DECRESC"]) + rng.choice(
+        ["(%s)", "=%s;", " %s ", "(%s,100,20)", "=%s,30;", "(%s,,5)", "()%.0s"]) % rng.choice(["!2", "4", "1", "!1", "2.", "", "8^8"])
+
+
+STR_NAMES = ["A", "B", "Mel", "A01", "X_1", "Bass", "#M", "ZZ"]
+
+
+def part_text(rng, depth=1, names=True):
+    """the text of a PLAY part / a string variable: balanced braces only; the text of a string variable never uses a
+    variable (a variable that uses itself is unbounded recursion: the process aborts, which C07 excludes)"""
+    n = rng.randrange(1, 6)
+    t = block(rng, depth, n, {"sub": True, "tuplet": True, "comments": False})
+    if rng.random() < 0.15:
+        t = track_cmd(rng) + " " + t
+    if names and rng.random() < 0.1:
+        t += " " + rng.choice(STR_NAMES)
+    return t.replace("//", "/ /")
+
+
+def play_cmd(rng):
+    k = rng.random()
+    n = rng.choice([1, 2, 2, 3, 4])
+    parts = []
+    for _ in range(n):
+        r = rng.random()
+        if r < 0.8:
+            parts.append("{" + part_text(rng) + "}")
+        elif r < 0.88:
+            parts.append(rng.choice(["1", "60", "", "-3"]))
+        else:
+            parts.append("{" + rng.choice(["", " ", "c", "r1", "l8"]) + "}")
+    sep = rng.choice([",", ", ", " ,\n", ","])
+    body = sep.join(parts)
+    return rng.choice(["PLAY", "Play"]) + rng.choice(["(%s)", "(%s)", "( %s )", "(%s", " (%s);"]) % body
+
+
+def str_def(rng):
+    name = rng.choice(STR_NAMES + ["", "TR", "Tempo", "c"])
+    k = rng.random()
+    if k < 0.8:
+        val = "{" + part_text(rng, names=False) + "}"
+    elif k < 0.9:
+        val = rng.choice(["5", "-1", "!4", ""])
+    else:
+        return rng.choice(["Str ", "STR "]) + name + " "
+    return rng.choice(["Str ", "STR ", "Str  ", "STR\t"]) + name + rng.choice([" = ", "=", " =", "= "]) + val + rng.choice(["", " ", "\n", ";"])
+
+
+def script_item(rng):
+    k = rng.random()
+    if k < 0.35:
+        return play_cmd(rng)
+    if k < 0.7:
+        return str_def(rng)
+    return rng.choice(STR_NAMES) + rng.choice([" ", " ", ";", "\n"])
+
+
+def ext_item(rng, feats):
+    k = rng.random()
+    if k < 0.30:
+        return ctrl_cmd(rng)
+    if k < 0.50 and feats.get("reservations", True):
+        return res_cmd(rng)
+    if k < 0.62 and feats.get("play", True):
+        return script_item(rng)
+    return item(rng, feats.get("depth", 2), feats)
+
+
+def ext_program(rng, size=None, feats=None):
+    """core programs interleaved with the commands the extended pipeline model covers"""
+    feats = feats or {}
+    size = size or rng.choice([3, 6, 10, 20])
+    out = []
+    if rng.random() < 0.2:
+        out.append("TimeBase(%d)\n" % rng.choice([48, 96, 192, 480, 24]))
+    for _ in range(size):
+        r = rng.random()
+        if r < 0.10:
+            out.append(track_cmd(rng))
+        else:
+            out.append(ext_item(rng, feats))
+        out.append(rng.choice(SEPS))
+    return "".join(out)
+
+
 JUNK_ALPHA = list("cdefgabrnlovqt0123456789.^%-+#*,()[]{}':;|<>@$!?&=\"`~\\/ \n\t") + \
     ["TR(", "CH(", "Tempo", "TimeBase", "Sub{", "Div{", "Rhythm{", "INT ", "STR ", "PRINT(", "IF(", "FOR(", "WHILE(",
      "FUNCTION ", "PLAY(", "SysEx$=", "KF", "TIME(", "End", "y", "PB(", ".onNote(", ".onTime(", ".Random", "=", "ド", "レ", "ミ",
